@@ -106,7 +106,7 @@ CallRegister(k) == /\ cpc[k] = "reg"
 \* CS [write]: a call is refused once the connection is shutting down; the refusal is
 \* returned to Call (which retires the call) and is NOT a writer failure
 CallWCheck(k) == /\ cpc[k] = "wcheck" /\ CS(st)
-  /\ cpc' = [cpc EXCEPT ![k] = IF ShuttingDown(st) THEN "retireW" ELSE "inwriter"]
+  /\ cpc' = [cpc EXCEPT ![k] = IF ShuttingDown(st) THEN "retireX" ELSE "inwriter"]   \* retireX: retire with the closing error
   /\ sent' = (IF ShuttingDown(st) THEN sent ELSE sent \cup {k})   \* handed to the Writer: the peer may answer from now on
   /\ UNCHANGED <<ready, outcome, ctxDone, npc, rdpc, rdarg, unread, dpc, darg, hpc, released, hctx, rp, isnotif, canpc, clpc, wtpc, wire>>
 
@@ -128,11 +128,14 @@ Retire(k, why) == IF k \in st.outgoing
   THEN CS([st EXCEPT !.outgoing = @ \ {k}]) /\ ready' = [ready EXCEPT ![k] = TRUE] /\ outcome' = [outcome EXCEPT ![k] = why]
   ELSE CS(st) /\ UNCHANGED <<ready, outcome>>
 
-CallRetireW(k) == /\ cpc[k] = "retireW" /\ Retire(k, "writeerr") /\ cpc' = [cpc EXCEPT ![k] = "await"]
+\* (a call refused at the write check is retired with the CLOSING error - mcp.call returns it as it is even when the
+\* caller's context is done as well; a call whose write failed is retired with the writer's error)
+CallRetireW(k) == /\ cpc[k] \in {"retireW", "retireX"} /\ Retire(k, IF cpc[k] = "retireX" THEN "closed" ELSE "writeerr")
+  /\ cpc' = [cpc EXCEPT ![k] = "await"]
   /\ UNCHANGED <<ctxDone, sent, npc, rdpc, rdarg, unread, dpc, darg, hpc, released, hctx, rp, isnotif, canpc, clpc, wtpc, wire>>
 
 \* the application cancels the call's context (any time after the call started)
-CtxCancel(k) == /\ cpc[k] \in {"reg", "wcheck", "inwriter", "wfail", "retireW", "await"} /\ ~ctxDone[k]
+CtxCancel(k) == /\ cpc[k] \in {"reg", "wcheck", "inwriter", "wfail", "retireW", "retireX", "await"} /\ ~ctxDone[k]
   /\ ctxDone' = [ctxDone EXCEPT ![k] = TRUE]
   /\ UNCHANGED <<st, cpc, ready, outcome, sent, npc, rdpc, rdarg, unread, dpc, darg, hpc, released, hctx, rp, isnotif, canpc, clpc, wtpc, transportClosed, wire>>
 
@@ -347,7 +350,7 @@ IdleWhenDone == st.done => Idle(st)                                        \* C0
 CountsNonNegative == st.incoming >= 0 /\ st.outNotif >= 0
 \* C01
 CompleteOnce == [][\A k \in Callers : ready[k] => (ready'[k] /\ outcome'[k] = outcome[k])]_vars
-DoneMeansDrained == st.done => \A k \in Callers : (cpc[k] \in {"wcheck", "inwriter", "wfail", "retireW", "await", "retireC"}) => ready[k]
+DoneMeansDrained == st.done => \A k \in Callers : (cpc[k] \in {"wcheck", "inwriter", "wfail", "retireW", "retireX", "await", "retireC"}) => ready[k]
 RefusedNeverWritten == \A k \in Callers : (outcome[k] = "closed") => \A i \in DOMAIN wire : wire[i] # <<"call", k>>
 OwnResponse == \A k \in Callers : outcome[k] = "response" => cpc[k] \notin {"idle", "reg", "wcheck"}
 \* C02
